@@ -39,7 +39,8 @@ import selfcal_gen as G
 VFILES = ["SelfCal/TrlModel.v", "SelfCal/TrlProofs.v", "SelfCal/TrlQI.v", "SelfCal/TrlTermsModel.v",
           "SelfCal/TrlTermsProofs.v", "SelfCal/TrlTermsQI.v", "SelfCal/AutoLoop.v",
           "SelfCal/AutoProofs.v", "SelfCal/AutoReplay.v", "SelfCal/GuardModel.v", "SelfCal/GuardProofs.v",
-          "SelfCal/DispatchModel.v", "SelfCal/DispatchProofs.v", "Properties_C02.v"]
+          "SelfCal/DispatchModel.v", "SelfCal/DispatchProofs.v",
+          "SelfCal/AutoKernelModel.v", "SelfCal/AutoKernelProofs.v", "SelfCal/AutoKernelQI.v", "Properties_C02.v"]
 
 RADIUS = 0.1            # stated radius of the guesses (relative to max(|truth|, 0.2))
 TOLS = [1e-4, 1e-6, 1e-8, 1e-10, 1e-12]
@@ -939,8 +940,11 @@ def run(ctx):
         "axioms: none (Print Assumptions: Closed under the global context for every theorem of Properties_C02.v)",
         "hand-written models coq/SelfCal/TrlModel.v, TrlTermsModel.v, AutoLoop.v, GuardModel.v, DispatchModel.v, tied to the code by correspondence on every run",
         "csqrt / cabs are parameters of the TRL model (Section variables sq, mag, le_abs: sq z * sq z = z at the argument used; a total order on moduli)",
-        "the numeric kernel of the Levenberg-Marquardt loop (QR, Jacobian, V-matrix update, LU: Section variables solve_x, sumk, step, "
-        "apply_step, normd, normdx of AutoLoop) is an abstract oracle; as total Coq functions they ASSUME that every kernel call returns",
+        "AutoLoop's theorems hold for an abstract kernel (Section variables solve_x, sumk, step, apply_step, normd, normdx: total "
+        "functions, i.e. every kernel call is ASSUMED to return); AutoKernelModel.v instantiates it with one pass of solve_auto as coded "
+        "over Q[i], with the Householder QR replaced by the normal equations / the projector y - A z (Q itself needs square roots); "
+        "that the code's Q2 Q2^H equals this projector is NOT proved, it is tied numerically (J^H J, J^H k, sum |k|^2 per pass); "
+        "the V-matrix update of the measurement-error model is not modelled (v factors are inputs of a pass)",
         "GuardModel: the well-formedness premises (vector lengths = allocation sizes, unknown indices below vn_unknown_parameters) "
         "are read off the allocation sites, not proved from a model of the add functions",
         "TRL error terms: that _vnacommon_qrsolve returns the solution of a consistent full-rank system and that vnacal_apply's LU "
@@ -971,6 +975,12 @@ def run(ctx):
     part_limits(ctx, rec, exe, 6 if quick else 40)
     ctx.log("auto tie")
     auto_ok = part_auto_tie(ctx, rec, wb, drv, 30 if quick else 300)
+    ctx.log("LM kernel tie")
+    import c02_kernel
+    kern_ok = c02_kernel.part_kernel_tie(ctx, rec, wb, ctx.ocaml_driver("drv_autokernel"), 14 if quick else 70)
+    ctx.log("sigma descriptions (two-point grid vs the same line sampled at every calibration frequency)")
+    import c02_sigma
+    c02_sigma.run_part(ctx, rec)
     ctx.log("directed")
     part_directed(ctx, rec, exe)
     ctx.log("guard")
@@ -982,7 +992,7 @@ def run(ctx):
     ctx.log("dispatch")
     disp_ok = part_dispatch(ctx, rec, wb, drv, 1 if quick else 6)
     ctx.log("done")
-    for name, okx in (("tie:writeback_exact", hist_ok), ("tie:initial_parameter_vector", mf_ok), ("tie:solver_dispatch", disp_ok),
+    for name, okx in (("tie:lm_kernel_pass_vs_AutoKernelModel", kern_ok), ("tie:writeback_exact", hist_ok), ("tie:initial_parameter_vector", mf_ok), ("tie:solver_dispatch", disp_ok),
                       ("tie:update_s_matrices_vs_GuardModel", guard_ok)):
         if not okx and not ctx.violations:
             ctx.unproved(name, "correspondence failed", "scenarios of this run")
